@@ -680,6 +680,11 @@ func mon(name, detail string) {
 func child(seed uint64, dur time.Duration, workers int) {
 	// a slice of the budget goes to the rounds aimed at the root's child table (see rootOverlap); the rest is the stress
 	runTreeScenarios() // forced schedules of the actor-tree machine (tree.go): a second at most
+	dnRounds := 60 // uniqueness of registration: same-name System.ActorOf calls from a barrier (dupname.go), ~0.5 s
+	if dur > 100*time.Second {
+		dnRounds = 600
+	}
+	duplicateNameRounds(seed, dnRounds)
 	roBudget := dur * 3 / 20
 	if roBudget > 45*time.Second {
 		roBudget = 45 * time.Second
